@@ -147,7 +147,7 @@ def run(module, *, constants=None, defs=None, init="Init", next="Next", spec=Non
             cmd += ["-depth", str(depth)]
         if seed is not None:
             cmd += ["-seed", str(seed)]
-        if coverage:
+        if coverage or os.environ.get("VERIF_TLC_COVERAGE") == "1":
             cmd += ["-coverage", "1"]
         cmd.append(mc + ".tla")
         e = dict(os.environ)
@@ -180,6 +180,7 @@ def run(module, *, constants=None, defs=None, init="Init", next="Next", spec=Non
 _GEN = re.compile(r"(\d+) states generated, (\d+) distinct states found")
 _DEPTH = re.compile(r"depth of the complete state graph search is (\d+)")
 _INV = re.compile(r"Error: Invariant (\S+) is violated")
+_COV = re.compile(r"^<(\w+) line \d+, col \d+ to line \d+, col \d+ of module (\w+)>: (\d+):(\d+)")
 _PROP = re.compile(r"Error: (?:Action|Temporal) propert(?:y|ies) (\S+)? ?(?:was|were|is) violated")
 
 
@@ -193,6 +194,14 @@ def parse(out):
                 continue
             except ValueError:
                 pass
+        if line.startswith("The coverage statistics at"):
+            res.coverage = {}          # TLC reprints the table periodically: the last one is complete
+            continue
+        if line.startswith("<"):
+            m = _COV.match(line)
+            if m:
+                res.coverage[(m.group(2), m.group(1))] = int(m.group(4))
+                continue
         m = _GEN.search(line)
         if m:
             res.generated, res.distinct = int(m.group(1)), int(m.group(2))
